@@ -157,7 +157,8 @@ pub fn render_requests(ctx: &mut Ctx, rng: &mut Rng) {
         for (p, fs) in &q {
             mq.insert(real::qas().into_iter().find(|x| x.0 == p).unwrap().1, fs.clone());
         }
-        let _ = std::fs::write("solstat_report.md", "stale report of a previous run\n");
+        // a previous report, every other time longer than any report this run can produce
+        let _ = std::fs::write("solstat_report.md", "stale report of a previous run\n".repeat(if k % 2 == 0 { 1 } else { 60000 }));
         let r = catch_unwind(AssertUnwindSafe(move || solstat::report::generation::generate_report(mv, mo, mq)));
         let imp = match r {
             Ok(()) => std::fs::read("solstat_report.md").map(|b| hex(&b)).unwrap_or_else(|_| "MISSING".into()),
